@@ -423,6 +423,8 @@ def _rand_dex_model(rng):
              "interfaces": rng.sample(ext[1:3] + [x for x in names if x != n], rng.choice([0, 0, 1, 2])) if True else [],
              "source": rng.choice([None, "A.java", "é.kt", "x"]), "sfields": [], "ifields": [], "dmethods": [], "vmethods": []}
         c["interfaces"] = c["interfaces"][:2]
+        if rng.random() < 0.08:
+            c["super"] = None          # superclass_idx = NO_INDEX: the class has no superclass (java.lang.Object in core files)
         seen_f, seen_m = set(), set()
         if rng.random() < 0.2:
             # two fields whose (class + name + type) concatenations coincide: x : LaLb;  and  xLa : Lb;
@@ -500,7 +502,8 @@ def generated_dex(U):
         U.ensures("exactly the declared classes, in file order", [g["name"] for g in got] == [w["name"] for w in want], got=[g["name"] for g in got])
         for g, w in zip(got, want):
             for key in ("access", "super", "interfaces", "sfields", "ifields", "dmethods", "vmethods"):
-                U.ensures("class %s as declared" % key, g[key] == w[key], cls=g["name"], got=str(g[key])[:300], want=str(w[key])[:300], file=rnd)
+                U.ensures("class %s as declared" % key, g[key] == w[key], cls=g["name"], got=str(g[key])[:300], want=str(w[key])[:300], file=rnd,
+                          unless=[U.known("KF-C05-1", key == "super" and w["super"] is None)])
             if w["source"] is not None:
                 U.ensures("source file name", g["source"] == w["source"], cls=g["name"], got=g["source"])
         for w in want:
